@@ -21,10 +21,10 @@ def MatcherOK (M : Matcher) : Prop := ∀ x, M.run id62Pattern x = id62Shape x
 /-- **C12 (full statement).** For every admissible declaration the compiler succeeds, and
 protovalidate's verdict on any well-typed field value is "accept" exactly when the value
 satisfies the declared rules, "reject" otherwise (never a run-time error). -/
-theorem C12_equiv (M : Matcher) (hM : MatcherOK M) (p : Property) (v : FieldVal)
-    (hwf : WFRules p = true) (hty : WellTyped p v = true) :
+theorem C12_equiv (M : Matcher) (hM : MatcherOK M) (optPres : Bool) (p : Property) (v : FieldVal)
+    (hwf : WFRules p = true) (hty : WellTyped optPres p v = true) :
     ∃ c, compileRules p = .ok c ∧
-      pvField M (definedOf p) c p.hasPresence v = ofBool (j5Accepts M p v) := by
+      pvField M (definedOf p) c (p.hasPresence optPres) v = ofBool (j5Accepts M optPres p v) := by
   simp only [WFRules, Bool.and_eq_true, Bool.not_eq_true'] at hwf
   obtain ⟨⟨hs, hnot⟩, harr⟩ := hwf
   obtain ⟨a, ha, hprim, hitem⟩ := item_equiv M hM p.schema.item hs
@@ -35,7 +35,7 @@ theorem C12_equiv (M : Matcher) (hM : MatcherOK M) (p : Property) (v : FieldVal)
     simp only [FieldSchema.item] at hitem
     cases v with
     | absent =>
-      have hp : (Property.hasPresence ⟨name, num, req, opt, desc, .single s⟩) = true := by
+      have hp : (Property.hasPresence ⟨name, num, req, opt, desc, .single s⟩ optPres) = true := by
         simpa [WellTyped] using hty
       simp only [hp, pv_single_absent]
       simp [j5Accepts]
@@ -65,7 +65,7 @@ theorem C12_equiv (M : Matcher) (hM : MatcherOK M) (p : Property) (v : FieldVal)
           cases y <;> simp [isMsgScalar] at hym
           simp only [Scalar.hasKind] at hyk
           simp_all
-      have hpres : (Property.hasPresence ⟨name, num, req, opt, desc, .array s rules sf⟩) = false := rfl
+      have hpres : (Property.hasPresence ⟨name, num, req, opt, desc, .array s rules sf⟩ optPres) = false := rfl
       simp only [hpres, pv_array M _ a.validate rules _ xs hne]
       have hall : xs.all (evalOpt M (definedOf ⟨name, num, req, opt, desc, .array s rules sf⟩) a.validate) =
           xs.all (j5Item M s) := by
@@ -77,13 +77,13 @@ theorem C12_equiv (M : Matcher) (hM : MatcherOK M) (p : Property) (v : FieldVal)
 
 /-- required presence: whatever the other rules, a required field that is unset (or zero-valued,
 for fields without presence) is rejected, and an empty list is rejected for a required array. -/
-theorem C12_required_equiv (M : Matcher) (hM : MatcherOK M) (p : Property) (v : FieldVal)
-    (hwf : WFRules p = true) (hty : WellTyped p v = true) (hreq : p.effRequired = true)
-    (hempty : fieldHas p.hasPresence v = false) :
-    ∃ c, compileRules p = .ok c ∧ pvField M (definedOf p) c p.hasPresence v = .reject ∧
-      j5Accepts M p v = false := by
-  obtain ⟨c, hc, hv⟩ := C12_equiv M hM p v hwf hty
-  have hj : j5Accepts M p v = false := by
+theorem C12_required_equiv (M : Matcher) (hM : MatcherOK M) (optPres : Bool) (p : Property) (v : FieldVal)
+    (hwf : WFRules p = true) (hty : WellTyped optPres p v = true) (hreq : p.effRequired = true)
+    (hempty : fieldHas (p.hasPresence optPres) v = false) :
+    ∃ c, compileRules p = .ok c ∧ pvField M (definedOf p) c (p.hasPresence optPres) v = .reject ∧
+      j5Accepts M optPres p v = false := by
+  obtain ⟨c, hc, hv⟩ := C12_equiv M hM optPres p v hwf hty
+  have hj : j5Accepts M optPres p v = false := by
     obtain ⟨name, num, req, opt, desc, schema⟩ := p
     cases schema with
     | single s =>
@@ -108,7 +108,7 @@ theorem C12_required_equiv (M : Matcher) (hM : MatcherOK M) (p : Property) (v : 
 theorem C12_array_equiv (M : Matcher) (hM : MatcherOK M) (p : Property) (s : Schema)
     (rules : Option ArrayRules) (sf : Option String) (xs : List Scalar)
     (hs : p.schema = .array s rules sf)
-    (hwf : WFRules p = true) (hty : WellTyped p (.list xs) = true) :
+    (hwf : WFRules p = true) (hty : WellTyped false p (.list xs) = true) :
     ∃ c, compileRules p = .ok c ∧
       (pvField M (definedOf p) c false (.list xs) = .accept ↔
         ((p.effRequired = true → xs ≠ []) ∧
@@ -117,9 +117,9 @@ theorem C12_array_equiv (M : Matcher) (hM : MatcherOK M) (p : Property) (s : Sch
             (∀ n, r.maxItems = some n → xs.length ≤ n) ∧
             (r.uniqueItems = some true → allDistinct xs = true)) ∧
          ∀ x ∈ xs, j5Item M s x = true)) := by
-  obtain ⟨c, hc, hv⟩ := C12_equiv M hM p (.list xs) hwf hty
+  obtain ⟨c, hc, hv⟩ := C12_equiv M hM false p (.list xs) hwf hty
   refine ⟨c, hc, ?_⟩
-  have hp : p.hasPresence = false := by
+  have hp : p.hasPresence false = false := by
     simp [Property.hasPresence, hs]
   rw [hp] at hv
   rw [hv]
@@ -213,7 +213,7 @@ theorem C12_int_reversed_counterexample :
                           schema := .single (.integer .i64 (some { minimum := some 10, maximum := some 5 }) none) }
     ∃ c, compileRules p = .ok c ∧
       pvField ⟨fun _ _ => false⟩ [] c false (.single (.int 20)) = .accept ∧
-      j5Accepts ⟨fun _ _ => false⟩ p (.single (.int 20)) = false := by
+      j5Accepts ⟨fun _ _ => false⟩ false p (.single (.int 20)) = false := by
   refine ⟨_, rfl, ?_, ?_⟩ <;> decide
 
 /-- Open finding `array-unique-on-message-items`: `uniqueItems` on an array of objects compiles to
@@ -223,8 +223,22 @@ theorem C12_unique_message_counterexample :
                           schema := .array (.object "foo.v1.Bar" false false) (some { uniqueItems := some true }) none }
     ∃ c, compileRules p = .ok c ∧
       pvField ⟨fun _ _ => false⟩ [] c false (.list [.msg]) = .error ∧
-      j5Accepts ⟨fun _ _ => false⟩ p (.list [.msg]) = true := by
+      j5Accepts ⟨fun _ _ => false⟩ false p (.list [.msg]) = true := by
   refine ⟨_, rfl, ?_, ?_⟩ <;> decide
+
+/-- Open finding `optional-field-without-presence`: `field s ? string { rules.minLength = 1 }`
+declares a field whose absence is distinguishable and allowed, but the compiled field has no
+presence (proto3_optional without a synthetic oneof), so the only message that can express
+"unset" carries the empty string, which the compiled constraint rejects. `C12_equiv` speaks
+about the compiled type as it is: for such fields it treats "unset" as the zero value. -/
+theorem C12_optional_presence_counterexample :
+    let p : Property := { name := "s", number := 2, explicitlyOptional := true,
+                          schema := .single (.string none (some { minLength := some 1 }) none) }
+    p.declaredPresence = true ∧ p.hasPresence false = false ∧
+    j5Accepts ⟨fun _ _ => false⟩ false p .absent = true ∧
+    ∃ c, compileRules p = .ok c ∧
+      pvField ⟨fun _ _ => false⟩ [] c (p.hasPresence false) (.single (.str [])) = .reject := by
+  refine ⟨by decide, by decide, by decide, _, rfl, by decide⟩
 
 /-! ## the matcher used by the correspondence runs satisfies the hypothesis -/
 
@@ -243,7 +257,7 @@ example : WFRules {
     schema := .single (.integer .u32 (some { minimum := some 1, maximum := some 10, exclusiveMaximum := some true }) none) } = true := by
   decide
 
-example : WellTyped {
+example : WellTyped false {
     name := "i", number := 2, required := true,
     schema := .single (.integer .u32 (some { minimum := some 1, maximum := some 10, exclusiveMaximum := some true }) none) }
     (.single (.int 10)) = true := by decide
